@@ -133,6 +133,21 @@ func NewParameters(logn int, q, p []uint64, xs, xe DistributionLiteral, ringType
 		return Parameters{}, fmt.Errorf("error distribution type must be Ternary or DiscretGaussian but is %T", xe)
 	}
 
+	// distributions that the samplers refuse or cannot sample must not yield parameters: ring.NewTernarySampler rejects H < 0,
+	// P outside [0, 1] and "both set" and cannot sample P = 1; the Gaussian sampler rejects until |x| <= Bound (never for Bound = 0 < Sigma)
+	for _, d := range []ring.DistributionParameters{params.xs.DistributionParameters, params.xe.DistributionParameters} {
+		switch t := d.(type) {
+		case ring.Ternary:
+			if t.H < 0 || t.P < 0 || t.P >= 1 || (t.P != 0 && t.H != 0) {
+				return Parameters{}, fmt.Errorf("invalid distribution %+v: H must be positive, P in (0, 1) and at most one of them set", t)
+			}
+		case ring.DiscreteGaussian:
+			if t.Sigma < 0 || t.Bound < 0 || (t.Sigma > 0 && t.Bound == 0) {
+				return Parameters{}, fmt.Errorf("invalid distribution %+v: Sigma and Bound must not be negative, and Bound must be positive when Sigma is", t)
+			}
+		}
+	}
+
 	// Key generation and public-key encryption sample the secret and the error over Q and extend them to P
 	// from their first limb (see ringqp.Ring.ExtendBasisSmallNormAndCenter): they must fit in Q[0].
 	if lenP != 0 && (2*params.xe.AbsBound >= float64(q[0]) || 2*params.xs.AbsBound >= float64(q[0])) {
